@@ -557,7 +557,7 @@ pub fn build_set<T: El>(contents: &BTreeSet<u64>, bh: Bh, phase: u64, rng: &mut 
         let j = rng.usize(i + 1);
         order.swap(i, j);
     }
-    if phase >= 2 {
+    if phase == 2 || phase == 3 {
         // noise elements keep a resize in flight at the end
         let mut noise = Vec::new();
         for v in order.iter() {
@@ -586,6 +586,22 @@ pub fn build_set<T: El>(contents: &BTreeSet<u64>, bh: Bh, phase: u64, rng: &mut 
     } else {
         for v in order {
             s.insert(T::mk(v));
+        }
+        if phase == 4 && !s.is_empty() {
+            // resize started by reserve: the main table is empty, everything sits in the old one
+            let mut extra = 0u64;
+            let mut noise = Vec::new();
+            while s.verif_state().old.is_some() && extra < 4096 {
+                extra += 1;
+                let v = (1u64 << 51) + extra;
+                s.insert(T::mk(v));
+                noise.push(v);
+            }
+            for v in noise {
+                s.remove(&T::mk(v));
+            }
+            let free = s.capacity() - s.len();
+            s.reserve(free + 1);
         }
     }
     let split = s.verif_state().old.as_ref().map_or(false, |o| o.table.len > 0);
@@ -696,7 +712,7 @@ fn algebra_case<T: El>(rng: &mut Rng, rep: &mut Report, tag: &str) {
     }
     let bha = Bh::new(*rng.pick(&[HMode::Good, HMode::Good, HMode::Identity, HMode::SameTag]), rng.below(8));
     let bhb = Bh::new(*rng.pick(&[HMode::Good, HMode::Good, HMode::Identity, HMode::SameTag]), rng.below(8));
-    let (pa, pb) = (rng.below(4), rng.below(4));
+    let (pa, pb) = (rng.below(5), rng.below(5));
     let (sa, split_a) = build_set::<T>(&a, bha, pa, rng);
     let (sb, split_b) = build_set::<T>(&b, bhb, pb, rng);
     rep.evaluations += 1;
